@@ -44,6 +44,13 @@ MISSED_FIRST = {
  "C29-w2-2": "missed at first; C29 now demands the exact close reason where the cause is unambiguous and has valid channel map updates in its alphabet",
  "C31-w2-1": "ended with a harness NONDETERMINISM error at first (ASan reports a PC only once per process); the C31 signaling units now report every error",
  "C30-w2-2": "harness did not build at first (the yielding stand-in for std::atomic_int lacked operator++ and the other read-modify-write members); completed, the TSan side pass got a no-progress horizon",
+ "C16-w3-1": "missed at first; C15-C17 gained units with Data Length Extension (max_rx_size 70, payload lengths 31..64)",
+ "C27-w3-1": "missed at first; C27 gained 'second connection after a version exchange' states",
+ "C29-w3-1": "missed at first; C29 gained a connection update that is refused at its instant and the oracle 'changed only for updates that took effect'",
+ "C35-w3-1": "missed by C35 at first (C32 reported it; the C32 failure pruned the state in the C35 build); stale user answers no longer prune, new status rule",
+ "C21-w3-1": "missed at first; C21 gained update parameter sets with WinOffset between the old and the new interval",
+ "C23-w3-1": "missed at first; C23 now demands that a skipped event is pulled back (radio asked, event moved) when pending data appears and the radio allows it, incl. planned exactly two ahead",
+ "C20-w3-1": "detected as a crash of the harness process (division by zero inside channel_map::reset for a map without used channels)",
  "C39-w2-2": "missed at first; the C39 content reference now survives interleaved control point procedures that do not leave flash mode",
  "C10-w2-1": "missed at first; C10 gained servers with include declarations",
  "C10-w2-2": "missed at first; C10 gained a server with a duplicated characteristic UUID (documented: the first one is notified)",
@@ -66,6 +73,10 @@ for log in sys.argv[1:]:
         m = re.match(r"C\d+ (quick|thorough): (ok|FAIL)", l)
         if m: res[cur]["verdict"] = m.group(2); res[cur]["tier"] = m.group(1)
 for d, r in sorted(res.items()):
+    if not os.path.isdir(d):
+        continue    # source directory of an earlier round already removed (it was imported then)
+    if "passed=" in suite.get(d, "") and "passed=70" not in suite.get(d, ""):
+        print(os.path.basename(d), "SKIPPED: breaks the repository suite:", suite[d]); continue
     sid = os.path.basename(d)
     if "/out2/" in d:   # second round of seeding
         sid = sid.replace("-", "-w2-")
